@@ -91,7 +91,13 @@ def impl(case):
                 delattr(c, op["name"])
                 out = "ok"
             elif op["op"] == "elaborate":
-                h.elaborate(c)
+                if cfg == "module":
+                    h.elaborate(c)
+                else:
+                    # a bundle definition is elaborated when a design that uses an instance of it is
+                    user = h.Module(name="UsesIt")
+                    user.bi = c()
+                    h.elaborate(user)
                 out = "ok"
             elif op["op"] == "steal":
                 v = val(op["v"])
@@ -156,13 +162,15 @@ def judge(case, im, mo):
             yield ("pred", f"after op {k} {op}: {why}", None)
             return
         # explicit rejection clauses
-        if op["op"] in ("setattr", "add") and a["out"] == "ok":
+        if op["op"] == "setattr" and op["key"].startswith("_"):
+            pass  # a plain Python attribute of the object: nothing is added to the container (coherence above still applies)
+        elif op["op"] in ("setattr", "add") and a["out"] == "ok":
             cur = (im["trace"][k - 1]["state"]["names"] if k > 0 else [o["name"] for o in case["objs"]])
             key = op.get("key") or op.get("name") or (cur[op["v"]] if op["v"] != "other" else None)
-            if op["v"] == "other":
+            if op["v"] == "other" and not (op["op"] == "setattr" and key.startswith("_")):
                 yield ("pred", f"op {k} {op}: non-HDL value accepted")
                 return
-            if key in reserved and not (op["op"] == "setattr" and key == "name"):
+            if key in reserved or (key or "").startswith("_") and op["op"] == "add":
                 yield ("pred", f"op {k} {op}: reserved name accepted")
                 return
             if k > 0 and im["trace"][k - 1]["state"]["frozen"]:
@@ -199,11 +207,16 @@ def gen_case(rng, cfg, nops, with_elab):
         nm = rng.choice(names[:3]) if rng.random() < 0.8 else rng.choice(names[3:])
         v = rng.randrange(nobj) if rng.random() < 0.9 else "other"
         if r < 0.4:
-            if nm == "name":
-                nm = "a"
+            if nm == "name" and v == "other":
+                nm = "a"   # `x.name = "text"` renames the container; an HDL object there is refused like any reserved name
+            if rng.random() < 0.06:
+                nm = rng.choice(["_x", "_a"])   # a plain Python attribute: accepted, nothing filed
             ops.append({"op": "setattr", "key": nm, "v": v})
         elif r < 0.7:
-            ops.append({"op": "add", "v": v, "name": rng.choice([None, None, nm])})
+            nm2 = rng.choice([None, None, nm])
+            if rng.random() < 0.08:
+                nm2 = rng.choice(["_x", "_a", "__len__"])   # never an HDL name: refused
+            ops.append({"op": "add", "v": v, "name": nm2})
         elif r < 0.8:
             ops.append({"op": "get", "name": nm})
         elif r < 0.9:
@@ -213,7 +226,7 @@ def gen_case(rng, cfg, nops, with_elab):
             ops.append({"op": "delattr", "name": rng.choice([nm, nm, "_initialized", "_private", "namespace"])})
         elif r < 0.97 and not with_elab:
             ops.append({"op": "steal", "v": v, "key": rng.choice(names[:3])})
-        elif with_elab and cfg == "module":
+        elif with_elab:
             ops.append({"op": "elaborate"})
         else:
             ops.append({"op": "get", "name": nm})
